@@ -254,7 +254,8 @@ func Search(t *testing.T, w World, o Options) *WorkerResult {
 		if o.MaxRuns > 0 && n >= o.MaxRuns {
 			break
 		}
-		if o.Budget > 0 && time.Since(start) > o.Budget {
+		// (every worker completes at least one run: on an overloaded machine the canary alone can use up the budget)
+		if o.Budget > 0 && n > 0 && time.Since(start) > o.Budget {
 			break
 		}
 		idx := uint64(o.Worker) + n*uint64(o.Workers)
